@@ -117,10 +117,12 @@ fn main() {
             if !arena_mode() {
                 // every history of up to 7 (thorough: 8) operations over three keys, lookups included
                 let d = if thorough { 8 } else { 7 };
-                let (n, f) = hexh::history_exhaustive(&mut out, suite, 3, d, 8);
+                let (n, f) = hexh::history_exhaustive(&mut out, suite, 3, d, 8, false);
+                // one operation shorter, with deletes and writes through predecessor handles in the alphabet
+                let (n2, f2) = if f { (0, false) } else { hexh::history_exhaustive(&mut out, suite, 3, d - 1, 8, true) };
                 extra.push(("history_exhaustive_depth".into(), d.to_string()));
-                extra.push(("history_exhaustive_histories".into(), n.to_string()));
-                extra.push(("history_exhaustive_failed".into(), f.to_string()));
+                extra.push(("history_exhaustive_histories".into(), (n + n2).to_string()));
+                extra.push(("history_exhaustive_failed".into(), (f || f2).to_string()));
             }
         }
         "key" | "klist" => {
@@ -143,7 +145,7 @@ fn main() {
             }
             if !arena_mode() {
                 let d = if thorough { 7 } else { 6 };
-                let (n, f) = hexh::history_exhaustive(&mut out, suite, 3, d, 8);
+                let (n, f) = hexh::history_exhaustive(&mut out, suite, 3, d, 8, false);
                 extra.push(("history_exhaustive_depth".into(), d.to_string()));
                 extra.push(("history_exhaustive_histories".into(), n.to_string()));
                 extra.push(("history_exhaustive_failed".into(), f.to_string()));
